@@ -395,6 +395,19 @@ func c17One(r *fw.Run, c *c17Case, idx int) {
 		<-frCh
 		return
 	}
+	// a third operation: one more frame, read with a fresh context
+	{
+		f3 := append([]byte(fmt.Sprintf(`{"parameters":{"third-operation":%d}}`, idx)), 0)
+		ctx3, cancel3 := context.WithTimeout(context.Background(), 15*time.Second)
+		e.peer.SetWriteDeadline(time.Now().Add(10 * time.Second))
+		go e.peer.Write(f3)
+		b3, err3 := e.rw.ReadBytes(ctx3, 0)
+		cancel3()
+		if err3 != nil || !bytes.Equal(b3, f3) {
+			report("reuse-bytes-lost", "third operation after the cancelled one: the peer sent %q, ReadBytes returned %q, %v", clip(string(f3), 80), clip(string(b3), 80), err3)
+			return
+		}
+	}
 	// client level reuse: a complete call on the same Connection
 	if e.conn != nil && c.Instant != "partial" {
 		pmu.Lock()
